@@ -1,7 +1,7 @@
 (* Entry points of the extracted model: [run cmd arg]. *)
 From Coq Require Import NArith List Bool.
 From PV Require Import Base.Sx Model.Forest Model.Table Model.LRDriver Model.Scan Model.Parser
-  Validators.TableStruct Extract.Codec.
+  Validators.TableStruct Extract.Codec Extract.RunC06.
 Import ListNotations.
 Local Open Scope N_scope.
 
@@ -37,5 +37,10 @@ Definition run (cmd : N) (arg : sx) : sx :=
   | 3 => run_table_struct arg
   | 4 => run_lr_parse arg
   | 5 => run_tree_ok arg
+  | 60 => run_c06_reduce arg
+  | 61 => run_c06_climb arg
+  | 62 => run_c06_opm arg
+  | 63 => run_c06_dec arg
+  | 64 => run_c06_prec_ok arg
   | _ => L [A 999999]
   end.
